@@ -697,7 +697,15 @@ def dict_attr(I, v, name):
     if name == 'values':
         return Builtin('dict.values', lambda I, a, k: list(v.values()))
     if name == 'copy':
-        return Builtin('dict.copy', lambda I, a, k: dict(v))
+        def cp(I, a, k):
+            # a defaultdict copies as a defaultdict with the same factory (CPython: defaultdict.copy / __copy__)
+            from .engine import DefaultDict
+            if isinstance(v, DefaultDict):
+                d = DefaultDict(v)
+                d.factory = v.factory
+                return d
+            return dict(v)
+        return Builtin('dict.copy', cp)
     if name == 'update':
         def f(I, a, k):
             W.note_mutation(I, v)
